@@ -23,7 +23,7 @@ ASSUMPTIONS = ['polling step of the kill loop is 0.1 s (kill_process); tolerance
                'a before_signal hook that vetoes the stop signal is covered by C14']
 
 CAUSES = ['stop', 'restart', 'decr', 'reload', 'reload-seq', 'reload-term', 'kill', 'kill-signum', 'kill-gt',
-          'kill-gt0', 'kill-gt-small', 'kill-pid', 'max_age', 'set-np']
+          'kill-gt0', 'kill-gt-small', 'kill-pid', 'max_age', 'set-np', 'set-gt+stop', 'set-sig+stop', 'set-gt+decr']
 SIGS = {'TERM': signal.SIGTERM, 'INT': signal.SIGINT, 'QUIT': signal.SIGQUIT, 'USR1': signal.SIGUSR1}
 TOL = 1e-4
 STEP = 0.1
@@ -58,7 +58,7 @@ def scenarios(tier):
         for cb in ('obedient', 'stubborn'):
             for sc in (False, True):
                 for d in (0.0, 0.1, 'never'):
-                    for cause in ('stop', 'kill', 'decr', 'reload'):
+                    for cause in ('stop', 'kill', 'decr', 'reload', 'set-sc+stop'):
                         out.append(Scenario('term', sig='TERM', g=0.25, d=d, cause=cause, tree=list(tree), cb=cb,
                                             sc=sc, E=0, nodet=True))
     # one extra death anywhere
@@ -115,6 +115,7 @@ def run(scn, ch):
     world = World(ch, [WSpec('a', numprocesses=2, behaviours=[_behaviour(scn)], **opts),
                        WSpec('z', numprocesses=1, graceful_timeout=9.0, stop_signal=int(signal.SIGUSR2))])
     win = Window(world)
+    world.eff_sc = scn.sc
     world.deaths_include_descendants = bool(scn.p.get('kids_die'))
     try:
         world.boot()
@@ -155,6 +156,20 @@ def run(scn, ch):
             world.request('kill', name='a', pid=initial[0])
         elif c == 'set-np':
             world.request('set', name='a', options={'numprocesses': 1})
+        elif c in ('set-gt+stop', 'set-sig+stop', 'set-gt+decr', 'set-sc+stop'):
+            # the settings in force are the ones a `set` request installed
+            if c.startswith('set-gt'):
+                exp_g = 0.5 if g != 0.5 else 0.3
+                rq = world.request('set', name='a', options={'graceful_timeout': exp_g})
+            elif c.startswith('set-sig'):
+                exp_sig = int(signal.SIGUSR2)
+                rq = world.request('set', name='a', options={'stop_signal': int(signal.SIGUSR2)})
+            else:
+                world.eff_sc = not scn.sc
+                rq = world.request('set', name='a', options={'stop_children': world.eff_sc})
+            world.run(until=lambda w: rq.replied() and w.slot() is None, horizon=1.0)
+            t_cause = CLOCK.now
+            world.request('decr' if c.endswith('decr') else 'stop', name='a')
         elif c == 'max_age':
             pass
         horizon = 2.5 + 4 * exp_g + (1.5 if c == 'max_age' else 0)
@@ -223,13 +238,13 @@ def _oracle(world, scn, res, exp_sig, exp_g, t_cause, t_end):
                 # first signal (kernel event order) was alive for the whole delivery
                 if first_seq and c.death_seq is not None and c.death_seq < first_seq:
                     alive_t0 = False
-                if scn.sc and alive_t0 and worker_alive_at_first and _was_child_at(world, c, p, t0):
+                if world.eff_sc and alive_t0 and worker_alive_at_first and _was_child_at(world, c, p, t0):
                     res.check('C03.children_stop', any(abs(t - t0) <= TOL and s == exp_sig for t, s in csig),
                               lambda: 'stop_children: child %d of worker %d did not get signal %d at the stop (%s)'
                               % (c.pid - PID_BASE, p.pid - PID_BASE, exp_sig, csig),
                               where='process.send_signal_child/worker-died-before-children-relisted'
                               if (died is not None and abs(died - t0) <= TOL) else 'watcher.send_signal_process')
-                if not scn.sc:
+                if not world.eff_sc:
                     res.check('C03.children_no_stop', not any(s == exp_sig and exp_sig != KILL for t, s in csig),
                               lambda: 'stop_children off but child %d got the stop signal' % (c.pid - PID_BASE),
                               where='watcher.kill_process')
